@@ -33,7 +33,7 @@ VENDORS = {
 
 
 class CliWorld:
-    def __init__(self, ch, prop, serial):
+    def __init__(self, ch, prop, serial, ndev=None):
         from annet.annlib.netdev.views.hardware import HardwareView
         from annet.vendors import registry_connector
         self.ch, self.prop = ch, prop
@@ -60,7 +60,7 @@ class CliWorld:
         self.fmt0 = v.make_formatter(indent="")
         self.order_text = self._gen_ordering(ch)
         self.deploy_text = self._gen_deploying(ch) if prop == "C09" else ""
-        ndev = 1 + (ch.draw(4, "ndev") == 0)
+        ndev = ndev if ndev is not None else 1 + (ch.draw(4, "ndev") == 0)
         self.inv = [F.InvDevice(100 + i, self.hw.model) for i in range(ndev)]
         self.dev = {d.id: W.CliDevice(self.rb, self.hw, W.gen_tree(ch, self.rb)) for d in self.inv}
         self.desired = {d.id: odict() for d in self.inv}
